@@ -221,4 +221,21 @@ func init() {
 				Overrides: map[string]string{"os.ReadDir": "vxReadDir", "crypto/sha256.New": "vxNewHash", "(*github.com/goplus/mod/xgomod.Module).IsClass": "vxIsClass"}},
 		},
 	})
+
+	// ---------------------------------------------------------------- C26
+	register(&checkSpec{
+		ID:   "C26",
+		Rule: "the real writeFileWithBackup runs over a file-system model; the crash point (world stops just before the crashAt-th mutating call), the index of a failing call and the original permission bits are symbolic; states = (crash point | failing call | success) x mode; the assertion is about the modelled directory at that instant. Counter-examples are replayed against the real file system in a child process under strace fault/kill injection",
+		Assumptions: []string{
+			"file-system model: CreateTemp creates mode 0600 (documented), Write may fail leaving partial content, Remove/Rename/Chmod are atomic and may fail without effect, Rename replaces the destination atomically (POSIX rename)",
+			"complete for the call sequence as written in the working tree (at most 8 mutating calls); only one fault per run; crash = process killed between two system calls (no torn writes inside one call, no power-loss reordering)",
+		},
+		Harnesses: []harnessSpec{
+			{Name: "VxC26", Pkg: "github.com/goplus/xgo/cmd/internal/gopfmt", Files: []string{"c26/c26.go"}, Quick: map[string]int{}, ReplayTimeout: 90 * time.Second,
+				Overrides: map[string]string{"os.CreateTemp": "vxCreateTemp", "(*os.File).Name": "vxFileName", "(*os.File).Write": "vxFileWrite", "(*os.File).Close": "vxFileClose",
+					"(*os.File).Chmod": "vxFileChmod", "os.Chmod": "vxChmod", "os.Remove": "vxRemove", "os.Rename": "vxRename", "os.Stat": "vxStat", "os.Lstat": "vxStat"}},
+			// child process entry point of the native replay (a no-op symbolically)
+			{Name: "VxC26Child", Pkg: "github.com/goplus/xgo/cmd/internal/gopfmt", Files: []string{"c26/c26.go"}, Quick: map[string]int{}, NoCrossVal: true},
+		},
+	})
 }
